@@ -68,6 +68,14 @@ type Options struct {
 	OpFunds        currency.Coin // balance given to every operational wallet
 	DelegateSpare  currency.Coin // balance given to delegate wallets on top of their stake
 	Fee            currency.Coin // fee of every transaction the library builds
+	// StartRound is the round of the block that is open when Setup returns
+	// (default 31). The contract cannot process a passed challenge of a blobber
+	// during the first block-reward period (rounds < block_reward.trigger_period = 30):
+	// a fresh blobber's RewardRound.StartRound is 0, which equals the reward round
+	// of that period, so the contract looks the blobber up in a partition it was
+	// never added to ("can't get blobber reward from partition list: item not
+	// found"). Use a smaller value to reach that situation on purpose.
+	StartRound int64
 }
 
 // DefaultOptions are: capacity 1000 GiB, read price 0.01, write price 0.1,
@@ -105,6 +113,9 @@ func (o Options) withDefaults() Options {
 	}
 	if o.DelegateSpare == 0 {
 		o.DelegateSpare = d.DelegateSpare
+	}
+	if o.StartRound == 0 {
+		o.StartRound = 31
 	}
 	return o
 }
@@ -155,7 +166,11 @@ func SetupWith(h *sim.History, opt Options) (*World, error) {
 			return nil, fmt.Errorf("validator %d: %w", i, err)
 		}
 	}
-	w.SetupBlock = h.NextBlock(1, 1)
+	skip := opt.StartRound - h.Round
+	if skip < 1 {
+		skip = 1
+	}
+	w.SetupBlock = h.NextBlock(skip, skip)
 	return w, nil
 }
 
@@ -332,11 +347,17 @@ func (w *World) BlobberIDs(n int) []string {
 // challenge generation).
 func (w *World) KeepAlive() error {
 	for _, b := range w.Blobbers {
+		if _, ok, _ := w.View().Blobber(b.ID()); !ok {
+			continue // removed from state (killed or shut down without data and stake)
+		}
 		if _, err := w.Exec(w.BlobberHealthCheck(b)); err != nil {
 			return err
 		}
 	}
 	for _, v := range w.Validators {
+		if _, ok, _ := w.View().Validator(v.ID()); !ok {
+			continue
+		}
 		if _, err := w.Exec(w.ValidatorHealthCheck(v)); err != nil {
 			return err
 		}
